@@ -5,22 +5,32 @@ import asyncio
 import itertools
 import multiprocessing as mp
 import random
+import shutil
+import tempfile
+from datetime import UTC, datetime
+from pathlib import Path
 
 from common import setup_repo_import
-from vloop import Stall, vrun
+from vloop import Stall, patch_aiosqlite, vrun
 
 ID = "C09"
-GENS = []
+GENS = ["c09_calls"]
 PROOF = "Gallia.Proofs.C09"
 DRIVER = "c09"
 ORACLE = False
 ASSUMPTIONS = [
-    "ECU class: answers to DiagnosticSessionControl depend only on the current session (a graph); only a positive "
-    "answer changes the session; a positive ECUReset re-enters session 1; TesterPresent is always answered",
-    "NRCs generated are members of UDSErrorCodes other than responsePending (0x78); the pending loop is C04's subject",
+    "ECU class: answers to DiagnosticSessionControl depend only on the current session (a graph `g`) and on whether the "
+    "request comes right after the requests of the ECU class' set_session_pre hook (a second graph `gh`, equal to `g` for the "
+    "base ECU class); only a positive answer changes the session; a positive ECUReset re-enters session 1; hook requests "
+    "are answered (negatively) and do not change the session",
+    "after an accepted ECUReset the ECU leaves a number of pings unanswered (boot phase) that fits into wait_for_ecu's "
+    "timeout; afterwards it answers every ping",
+    "NRCs generated are members of UDSErrorCodes other than responsePending (0x78); the pending loop is C04's subject "
+    "(its transparency above the client is proved for the scanners of C10: pending_transparent)",
     "completeness is claimed for runs that do not exit with status 1; every ECU whose sessions can all re-enter the "
     "default session (ISO 14229-1: `10 01` is mandatory) is proved to be such a run",
-    "base ECU class (no OEM hooks): --with-hooks repeats the request once on conditionsNotCorrect",
+    "OEM hooks are represented by the list of 2-byte requests they send (send_raw, reply ignored); with the base ECU class "
+    "--with-hooks repeats the request once on conditionsNotCorrect",
 ]
 
 NRCS = [0x10, 0x11, 0x13, 0x22, 0x22, 0x24, 0x31, 0x33, 0x33, 0x7E, 0x7E, 0x7F, 0x21]
@@ -49,10 +59,19 @@ def _load_impl():
     class GraphTransport(BaseTransport, scheme="graph"):
         """the ECU: session graph + current session; answers DSC, ECUReset and TesterPresent"""
 
-        def __init__(self, target, edges, rst):
+        def __init__(self, target, edges, rst, edges_h=None, pre=(), post=(), boot=0):
             super().__init__(target)
             self.edges = edges
             self.rst = rst
+            # an ECU on which the session hooks of the (OEM) ECU class have an effect: a `10 u` that comes right after the
+            # requests of set_session_pre is answered from `edges_h`
+            self.edges_h = edges_h if edges_h is not None else edges
+            self.pre = {bytes([x >> 8, x & 0xFF]) for x in pre}
+            self.post = {bytes([x >> 8, x & 0xFF]) for x in post}
+            self.hooked = False
+            self.hooked_for = None  # target of the hooked attempt (its retransmissions are hooked as well)
+            self.boot = boot        # pings left unanswered after an accepted reset
+            self.booting = 0
             self.cur = 1
             self.log = []  # (pdu hex, ECU session on arrival, inside _recover_stack?)
             self.pending = None
@@ -80,20 +99,37 @@ def _load_impl():
                 raise TooManyRequests()
             self.log.append((data.hex(), self.cur, self.in_recover))
             sid = data[0]
-            if sid == 0x10 and len(data) == 2:
-                r = self._answer(sid, self.edges.get((self.cur, data[1] & 0x7F), "n18"))
+            if bytes(data) in self.pre or bytes(data) in self.post:
+                if bytes(data) in self.pre:
+                    self.hooked, self.hooked_for = True, None
+                r = bytes([0x7F, sid, 0x11])
+            elif sid == 0x10 and len(data) == 2:
+                if self.hooked and self.hooked_for not in (None, data[1] & 0x7F):
+                    self.hooked = False
+                if self.hooked:
+                    self.hooked_for = data[1] & 0x7F
+                edges = self.edges_h if (self.hooked and self.pre) else self.edges
+                r = self._answer(sid, edges.get((self.cur, data[1] & 0x7F), "n18"))
+                if r is not None:
+                    self.hooked = False   # an unanswered hooked attempt is retransmitted under the same conditions
                 if r == "pos":
                     self.cur = data[1] & 0x7F
                     r = bytes([0x50, data[1], 0x00, 0x32, 0x01, 0xF4])
                 if data[1] & 0x80 and r is not None and r[0] == 0x50:
                     r = None
             elif sid == 0x11 and len(data) == 2:
+                self.hooked = False
                 r = self._answer(sid, self.rst)
                 if r == "pos":
                     self.cur = 1
+                    self.booting = self.boot
                     r = bytes([0x51, data[1]])
             elif sid == 0x3E:
-                r = bytes([0x7E, 0x00])
+                if self.booting > 0:
+                    self.booting -= 1
+                    r = None
+                else:
+                    r = bytes([0x7E, 0x00])
             else:
                 r = bytes([0x7F, sid, 0x11])
             self.pending = r
@@ -125,6 +161,21 @@ def _load_impl():
             self.cur = int(self.server.state.session)
             return len(data)
 
+    class HookedECU(ECU):
+        """an OEM ECU class whose session hooks send requests (reply ignored)"""
+        pre_pdus = ()
+        post_pdus = ()
+
+        async def set_session_pre(self, level, config=None):
+            for p in self.pre_pdus:
+                await self.send_raw(p)
+            return True
+
+        async def set_session_post(self, level, config=None):
+            for p in self.post_pdus:
+                await self.send_raw(p)
+            return True
+
     class DBStub:
         def __init__(self):
             self.rows = []
@@ -132,8 +183,26 @@ def _load_impl():
         async def insert_session_transition(self, destination, steps):
             self.rows.append((int(destination), [int(x) for x in steps]))
 
-    _impl.update(SessionsScanner=SessionsScanner, SessionsScannerConfig=SessionsScannerConfig, ECU=ECU,
-                 GraphTransport=GraphTransport, VecuTransport=VecuTransport, TargetURI=TargetURI, DBStub=DBStub)
+    from gallia.db.handler import DBHandler
+
+    class RecDB(DBHandler):
+        """the real DBHandler on a real sqlite file, remembering the session_transition rows this run writes"""
+
+        def __init__(self, path):
+            super().__init__(path)
+            self.rows = []
+            self.lookups = 0
+
+        async def insert_session_transition(self, destination, steps):
+            self.rows.append((int(destination), [int(x) for x in steps]))
+            await super().insert_session_transition(destination, steps)
+
+        async def get_session_transition(self, destination):
+            self.lookups += 1
+            return await super().get_session_transition(destination)
+
+    _impl.update(SessionsScanner=SessionsScanner, SessionsScannerConfig=SessionsScannerConfig, ECU=ECU, HookedECU=HookedECU,
+                 GraphTransport=GraphTransport, VecuTransport=VecuTransport, TargetURI=TargetURI, DBStub=DBStub, RecDB=RecDB)
     return _impl
 
 
@@ -176,21 +245,48 @@ def parse_edges(case):
     return {(int(k.split(">")[0]), int(k.split(">")[1])): v for k, v in case["g"].items()}
 
 
-def run_impl(case):
-    """run the real scanner on one case -> canonical observation"""
+class _MetaCfg:
+    def model_dump_json(self):
+        return "{}"
+
+
+DB_TARGET = "graph://ecu"
+
+
+def run_impl(case, dbfile=None):
+    """run the real scanner on one case -> canonical observation.
+    `case["db_history"]` (a list of cases): the scan runs with a real database (sqlite file) into which the scans of the
+    history have been run before, against the same target - as a user does who scans the same ECU a second time."""
     m = _load_impl()
+    if case.get("db_history") is not None and dbfile is None:
+        patch_aiosqlite()
+        td = tempfile.mkdtemp(prefix="verif-c09-", dir="/var/tmp")
+        try:
+            path = td + "/scan.sqlite"
+            for h in case["db_history"]:
+                run_impl({k: v for k, v in h.items() if k != "db_history"}, dbfile=path)
+            return run_impl(case, dbfile=path)
+        finally:
+            shutil.rmtree(td, ignore_errors=True)
     cfg = m["SessionsScannerConfig"].model_construct(
         depth=case["depth"], sleep=0, skip=list(case["skip"]), with_hooks=bool(case["hooks"]),
-        reset=case["reset"], thorough=bool(case["thorough"]), timeout=2.0, db=None)
+        reset=case["reset"], thorough=bool(case["thorough"]), timeout=2.0 + case.get("boot", 0), db=None)
     sc = m["SessionsScanner"].__new__(m["SessionsScanner"])
     sc.config = cfg
     sc.result = []
-    sc.db_handler = m["DBStub"]()
+    sc.db_handler = m["DBStub"]() if dbfile is None else m["RecDB"](Path(dbfile))
     if "vecu" in case:
         tr = m["VecuTransport"](m["TargetURI"]("vecu://ecu"), make_vecu(*case["vecu"]))
     else:
-        tr = m["GraphTransport"](m["TargetURI"]("graph://ecu"), parse_edges(case), case["rst"])
-    sc.ecu = m["ECU"](tr, timeout=2.0, max_retry=case["max_retry"])
+        gh = None if case.get("gh") is None else {(int(k.split(">")[0]), int(k.split(">")[1])): v for k, v in case["gh"].items()}
+        tr = m["GraphTransport"](m["TargetURI"](DB_TARGET), parse_edges(case), case["rst"], gh,
+                                 case.get("pre", ()), case.get("post", ()), case.get("boot", 0))
+    if case.get("pre") or case.get("post"):
+        sc.ecu = m["HookedECU"](tr, timeout=2.0, max_retry=case["max_retry"])
+        sc.ecu.pre_pdus = [bytes([x >> 8, x & 0xFF]) for x in case.get("pre", ())]
+        sc.ecu.post_pdus = [bytes([x >> 8, x & 0xFF]) for x in case.get("post", ())]
+    else:
+        sc.ecu = m["ECU"](tr, timeout=2.0, max_retry=case["max_retry"])
     orig_recover = sc._recover_stack
 
     async def recover(stack, use_hooks):
@@ -201,11 +297,30 @@ def run_impl(case):
             tr.in_recover = False
 
     sc._recover_stack = recover
+
+    async def runner():
+        db = sc.db_handler
+        if dbfile is not None:
+            # what UDSScanner.setup does with --db: connect, one run_meta / scan_run row for this target, the ECU object
+            # shares the handler (the exchange log itself is C11's subject and switched off here)
+            await db.connect()
+            await db.insert_run_meta("verif-c09", _MetaCfg(), datetime.now(UTC).astimezone(), None)
+            await db.insert_scan_run(DB_TARGET)
+            sc.ecu.db_handler = db
+            sc.ecu.implicit_logging = False
+        try:
+            try:
+                await sc.main()
+                return "0"
+            except SystemExit as e:
+                return str(e.code)
+        finally:
+            if dbfile is not None:
+                await db.disconnect()
+
     status = "0"
     try:
-        vrun(sc.main())
-    except SystemExit as e:
-        status = str(e.code)
+        status, _ = vrun(runner())
     except Stall as e:
         status = "stall"
     except TooManyRequests:
@@ -221,6 +336,7 @@ def run_impl(case):
         "recover_flags": [bool(r) for _, _, r in tr.log],
         "client_session": int(sc.ecu.state.session),
         "ecu_session": tr.cur,
+        "db_lookups": getattr(sc.db_handler, "lookups", 0),
     }
 
 
@@ -247,20 +363,34 @@ def _csv(xs):
     return ",".join(str(x) for x in xs) if xs else "-"
 
 
-def _edges_str(case):
-    return ",".join(f"{k}:{v}" for k, v in sorted(case["g"].items(), key=lambda kv: tuple(map(int, kv[0].split(">"))))) or "-"
+def _edges_str(case, field="g"):
+    return ",".join(f"{k}:{v}" for k, v in sorted(case[field].items(), key=lambda kv: tuple(map(int, kv[0].split(">"))))) or "-"
+
+
+def _hook_fields(case):
+    """the part of a driver line that describes the ECU class' hooks, the hooked graph and the boot phase"""
+    out = ""
+    if case.get("gh") is not None:
+        out += f" gh={_edges_str(case, 'gh')}"
+    if case.get("pre"):
+        out += f" hp={_csv(case['pre'])}"
+    if case.get("post"):
+        out += f" hq={_csv(case['post'])}"
+    if case.get("boot"):
+        out += f" boot={case['boot']}"
+    return out
 
 
 def scan_line(case):
     return (f"scan d={case['depth']} skip={_csv(case['skip'])} th={int(case['thorough'])} "
             f"rs={case['reset'] if case['reset'] is not None else '-'} hk={int(case['hooks'])} mr={case['max_retry']} "
-            f"rst={case['rst']} g={_edges_str(case)}")
+            f"rst={case['rst']} g={_edges_str(case)}" + _hook_fields(case))
 
 
 def spec_line(case, impl):
     # the positive rows are the first len(result) rows the scanner wrote
     rep = ";".join(f"{s}@{'.'.join(map(str, st))}" for s, st in impl["rows"][: len(impl["result"])]) or "-"
-    return f"spec d={case['depth']} skip={_csv(case['skip'])} g={_edges_str(case)} rep={rep}"
+    return f"spec d={case['depth']} skip={_csv(case['skip'])} hk={int(case['hooks'])} g={_edges_str(case)}{_hook_fields(case)} rep={rep}"
 
 
 def parse_model(line):
@@ -296,7 +426,7 @@ def in_class(case):
     """every session the graph mentions (and the default session) can re-enter the default session"""
     e = case["g"]
     nodes = {1}
-    for k in e:
+    for k in list(e) + list(case.get("gh") or {}):
         a, b = k.split(">")
         nodes.add(int(a))
         nodes.add(int(b))
@@ -344,6 +474,9 @@ def judge(case, impl, model, spec):
     # --- the tie: model vs implementation ------------------------------------------------------------------
     if model["track"] != "1":
         out.append(("model-state-tracking", "model probes outside the stack top", False))
+    if impl.get("db_lookups"):
+        out.append(("tie:db-consulted", f"the scan looked up stored session transitions {impl['db_lookups']} times; the model's "
+                                        "set_session calls carry use_db=False", False))
     for f, mf in (("exit", "exit"), ("result", "result"), ("rows", "rows"), ("reqs", "reqs"), ("ecu_session", "cur"), ("client_session", "cur")):
         if impl[f] != model[mf]:
             if f == "reqs":
@@ -381,9 +514,41 @@ def n_walks(case, limit):
     return total
 
 
-def mk_case(g, depth, skip=(), thorough=False, reset=None, hooks=False, max_retry=0, rst="p"):
-    return {"g": {f"{a}>{b}": v for (a, b), v in g.items()}, "depth": depth, "skip": sorted(set(skip)),
-            "thorough": bool(thorough), "reset": reset, "hooks": bool(hooks), "max_retry": max_retry, "rst": rst}
+def mk_case(g, depth, skip=(), thorough=False, reset=None, hooks=False, max_retry=0, rst="p", gh=None, pre=(), post=(), boot=0):
+    c = {"g": {f"{a}>{b}": v for (a, b), v in g.items()}, "depth": depth, "skip": sorted(set(skip)),
+         "thorough": bool(thorough), "reset": reset, "hooks": bool(hooks), "max_retry": max_retry, "rst": rst}
+    if gh is not None:
+        c["gh"] = {f"{a}>{b}": v for (a, b), v in gh.items()}
+    if pre:
+        c["pre"] = list(pre)
+    if post:
+        c["post"] = list(post)
+    if boot:
+        c["boot"] = boot
+    return c
+
+
+HOOK_REQS = [0x8502, 0x8501, 0x2803, 0x2800, 0x3101]
+
+
+def hook_class(rng, g, ids):
+    """an ECU class with session hooks and an ECU on which they matter: some edges are refused with
+    conditionsNotCorrect unless the request comes right after the pre hook -> (g, gh, pre, post)"""
+    reqs = rng.sample(HOOK_REQS, rng.randint(1, 3))
+    cut = rng.randint(0, len(reqs)) if rng.random() < 0.7 else len(reqs)
+    pre, post = reqs[:cut], reqs[cut:]
+    g = dict(g)
+    gh = dict(g)
+    cand = [k for k, v in g.items() if v == "p" and k[1] != 1] + [(rng.choice(ids), rng.choice(ids)) for _ in range(2)]
+    for k in rng.sample(cand, min(len(cand), rng.randint(1, 4))):
+        if k[1] == 1:
+            continue
+        g[k] = "n34"                                            # conditionsNotCorrect without the hook
+        gh[k] = rng.choice(["p", "p", "p", "n34", "n51", "s"])  # what the hooked attempt gets
+    for k in rng.sample(list(gh), min(len(gh), rng.randint(0, 2))):
+        if g[k] != "n34":
+            gh[k] = rng.choice(["n34", "n18", "p"])             # differences that no hooked attempt ever sees
+    return g, gh, pre, post
 
 
 def rand_ids(rng, k):
@@ -471,9 +636,16 @@ def rand_case(rng, widened=False):
         skip = rng.sample(ids[1:], min(len(ids) - 1, rng.randint(1, 3))) + rng.sample(range(2, 0x80), rng.randint(0, 3))
     else:
         skip = [1] + rng.sample(ids[1:], rng.randint(0, 1))
-    case = mk_case(g, depth, skip, thorough=rng.random() < 0.35, reset=rng.choice([None, None, None, 1, 2, 3]),
-                   hooks=rng.random() < 0.25, max_retry=rng.choice([0, 0, 1, 2]),
-                   rst=rng.choice(["p", "p", "p", "p", "n17", "n34", "s"]))
+    gh, pre, post = None, (), ()
+    with_class = rng.random() < 0.3
+    if with_class:
+        g, gh, pre, post = hook_class(rng, g, ids)
+        shape += "+hook-class"
+    reset = rng.choice([None, None, None, 1, 2, 3])
+    case = mk_case(g, depth, skip, thorough=rng.random() < 0.35, reset=reset,
+                   hooks=rng.random() < (0.7 if with_class else 0.25), max_retry=rng.choice([0, 0, 1, 2]),
+                   rst=rng.choice(["p", "p", "p", "p", "n17", "n34", "s"]), gh=gh, pre=pre, post=post,
+                   boot=rng.choice([0, 0, 1, 2, 3]) if reset else 0)
     if case["thorough"] and n_walks(case, 40) > 40:
         case["thorough"] = False
     return case, shape + ("" if reentry else "+no-reentry")
@@ -512,13 +684,21 @@ def shrink(ctx, case, cls):
         for f, v in (("thorough", False), ("hooks", False), ("reset", None), ("max_retry", 0), ("rst", "p")):
             if cur[f] != v:
                 cands.append({**cur, f: v})
+        for f in ("boot", "post", "pre", "gh"):
+            if cur.get(f):
+                cands.append({k: v for k, v in cur.items() if k != f})
+        for k in sorted(cur.get("gh") or {}, key=lambda k: tuple(map(int, k.split(">")))):
+            cands.append({**cur, "gh": {a: b for a, b in cur["gh"].items() if a != k}})
         for d in range(1, cur["depth"]):
             cands.append({**cur, "depth": d})
         for x in cur["skip"]:
             cands.append({**cur, "skip": [y for y in cur["skip"] if y != x]})
+        if cur.get("db_history"):
+            cands.append({**cur, "db_history": cur["db_history"][:-1]})
+            cands.append({**cur, "db_history": cur["db_history"][1:]})
         for k in sorted(cur["g"], key=lambda k: tuple(map(int, k.split(">")))):
-            if "vecu" in cur:
-                break  # the graph belongs to the vECU seed
+            if "vecu" in cur or cur.get("db_history"):
+                break  # the graph belongs to the vECU seed / is shared with the scans of the history
             cands.append({**cur, "g": {a: b for a, b in cur["g"].items() if a != k}})
         for c in cands:
             budget -= 1
@@ -535,8 +715,40 @@ def case_key(case):
     if "vecu" in case:
         return (f"vecu={case['vecu'][0]}/{case['vecu'][1]};d={case['depth']};skip={_csv(case['skip'])};"
                 f"th={int(case['thorough'])};hk={int(case['hooks'])};mr={case['max_retry']}")
+    hist = ""
+    if case.get("db_history") is not None:
+        hist = ";db=" + ("fresh" if not case["db_history"] else "|".join(
+            f"d{h['depth']},skip={_csv(h['skip'])},th={int(h['thorough'])},hk={int(h['hooks'])}" for h in case["db_history"]))
     return (f"d={case['depth']};skip={_csv(case['skip'])};th={int(case['thorough'])};rs={case['reset']};"
-            f"hk={int(case['hooks'])};mr={case['max_retry']};rst={case['rst']};g={_edges_str(case)}")
+            f"hk={int(case['hooks'])};mr={case['max_retry']};rst={case['rst']};g={_edges_str(case)}"
+            + _hook_fields(case).replace(" ", ";") + hist)
+
+
+def db_sequence(rng):
+    """the same ECU scanned two or three times into one database with different depth / skip / thorough: every scan is a
+    case of its own whose `db_history` lists the scans that filled the database before it"""
+    shape = rng.choice(["chain", "chain", "deep-only", "density", "islands"])
+    g, ids = rand_graph(rng, shape)
+    g = decorate(rng, g, ids, True)
+    gh, pre, post = None, (), ()
+    if rng.random() < 0.25:
+        g, gh, pre, post = hook_class(rng, g, ids)
+    common = dict(max_retry=rng.choice([0, 0, 1]), rst="p", gh=gh, pre=pre, post=post)
+    scans = [mk_case(g, rng.choice([3, 4, 5]), [], hooks=bool(pre) or rng.random() < 0.2, **common)]
+    for _ in range(rng.randint(1, 2)):
+        kind = rng.random()
+        depth = rng.choice([1, 1, 2, 2, 3])
+        skip = []
+        if kind < 0.5 and len(ids) > 2:
+            skip = rng.sample(ids[1:], rng.randint(1, min(2, len(ids) - 1)))
+        scans.append(mk_case(g, depth, skip, thorough=rng.random() < 0.2, hooks=rng.random() < 0.3,
+                             reset=rng.choice([None, None, 1]), **common))
+    out = []
+    for i, c in enumerate(scans):
+        if c["thorough"] and n_walks(c, 40) > 40:
+            c["thorough"] = False
+        out.append({**c, "db_history": [dict(h) for h in scans[:i]]})
+    return out, "db:" + shape
 
 
 GENERIC = ("skipped-session-requested:default-session:stack-recovery",)
@@ -601,6 +813,13 @@ def run(ctx):
             c["thorough"] = False
         add(c, "vecu:RandomUDSServer")
 
+    # 4. the same target scanned repeatedly into one real database (sqlite file): the scanner must not let earlier results
+    #    steer a later scan (the model does not consult the database)
+    for _ in range(ctx.pick(28, 220)):
+        seq, label = db_sequence(rng)
+        for n, c in enumerate(seq):
+            add(c, f"{label}:scan-{n + 1}")
+
     impls, models, specs = evaluate(ctx, cases, procs)
     seen_cls = {}
     for case, label, impl, model, spec in zip(cases, labels, impls, models, specs):
@@ -648,19 +867,25 @@ def replay(ctx, case):
 
 MANIFEST = {
     "level_text": ("Lean 4 theorems over an executable model of SessionsScanner.main (level loop, stack recovery, "
-                   "searched-sessions pruning, on-stack cycle test, NRC classification, retransmissions, --reset, "
-                   "--with-hooks, exit 1 on failed recovery) against the reachability specification ReachWithin: soundness "
+                   "searched-sessions pruning, on-stack cycle test, NRC classification, retransmissions, --reset with "
+                   "ECUReset + wait_for_ecu and the ECU's boot phase, --with-hooks with the hooked second attempt through "
+                   "ECU.set_session (set_session_pre requests, 10 s, set_session_post requests) on ECUs that answer a hooked "
+                   "attempt differently, exit 1 on failed recovery) against the reachability specification ReachWithin over "
+                   "the effective graph `edge` (an edge refused with conditionsNotCorrect counts when --with-hooks is given "
+                   "and the hooked attempt succeeds): soundness "
                    "of every reported (session, stack) for every ECU graph, completeness for every run that does not give "
                    "up (proved never to happen when every session can re-enter the default session), structural "
                    "termination, state tracking before every probe, skipped sessions never requested (except the default "
-                   "session during stack recovery: witness theorem + known finding), thorough mode reports the same set. "
+                   "session during stack recovery: witness theorem + known finding), thorough mode and --reset report the same set, "
+                   "--with-hooks only adds sessions. "
                    "Tied to the code by running the real SessionsScanner.main() with a real ECU/UDSClient on an in-process "
                    "graph ECU under virtual time and comparing result, written session_transition rows, exit status, final "
                    "session and the exact request sequence seen by the ECU; the specification is evaluated on what the real "
                    "scanner reported."),
     "level_note": ("Trusted: Lean kernel (axioms propext, Quot.sound, Classical.choice), the harness and its graph ECU, the "
                    "virtual-time loop. The ECU class is a deterministic session graph (answers depend on the current "
-                   "session only); responsePending handling belongs to C04; OEM hook code is not covered (base ECU)."),
+                   "session and on whether the session hook preceded the request); responsePending handling belongs to C04; OEM "
+                   "hooks are request lists."),
     "technique": "Lean 4 proof (invariants over nested folds, BFS completeness) + differential correspondence against the real scanner",
     "design_ref": "DESIGN.md section 7, C09",
 }
